@@ -7,6 +7,8 @@ FAKE_SSH = r'''#!/bin/bash
 # into the scratch "remote" directory; logs every invocation.
 host="$1"; shift
 cmd="$1"
+# (with FAKE_PER_HOST every host name has its own remote file system)
+if [ -n "$FAKE_PER_HOST" ]; then FAKE_REMOTE_ROOT="$FAKE_REMOTE_ROOT-$host"; mkdir -p "$FAKE_REMOTE_ROOT"; fi
 cmd="${cmd//\/var\/tmp/$FAKE_REMOTE_ROOT}"
 printf 'ssh\t%s\t%s\n' "$host" "$(printf '%s' "$1" | tr '\n' ' ')" >> "$FAKE_LOG"
 if [ -n "$FAKE_RELAY_ORDER$FAKE_CUT$FAKE_KEY_LOG" ] && [[ "$cmd" == *--doer* ]]; then exec python3 "$(dirname "$0")/relay.py" "$cmd"; fi
@@ -126,8 +128,15 @@ FAKE_SCP = r'''#!/bin/bash
 # fake scp -r <src> <host:/var/tmp>
 printf 'scp\t%s\n' "$*" >> "$FAKE_LOG"
 src="$2"
+if [ -n "$FAKE_PER_HOST" ]; then h="${3%%:*}"; FAKE_REMOTE_ROOT="$FAKE_REMOTE_ROOT-$h"; fi
 mkdir -p "$FAKE_REMOTE_ROOT"
 exec cp -r "$src" "$FAKE_REMOTE_ROOT/"
+'''
+
+
+FAKE_UNAME = r'''#!/bin/bash
+# fake uname for the "remote" side: with $FAKE_UNAME the remote claims to be another architecture
+if [ -n "$FAKE_UNAME" ]; then echo "Linux fakehost 5.10.0 #1 SMP $FAKE_UNAME GNU/Linux"; else exec /bin/uname "$@"; fi
 '''
 
 
@@ -138,7 +147,7 @@ class Sandbox:
         self.bin = os.path.join(self.dir, 'bin'); os.makedirs(self.bin)
         self.remote = os.path.join(self.dir, 'remote'); os.makedirs(self.remote)
         self.log = os.path.join(self.dir, 'fake.log'); open(self.log, 'w').close()
-        for name, body in (('ssh', FAKE_SSH), ('scp', FAKE_SCP), ('relay.py', RELAY)):
+        for name, body in (('ssh', FAKE_SSH), ('scp', FAKE_SCP), ('relay.py', RELAY), ('uname', FAKE_UNAME)):
             p = os.path.join(self.bin, name)
             open(p, 'w').write(body); os.chmod(p, 0o755)
 
